@@ -964,6 +964,8 @@ func (ft *FT) concat(x, y Term) Term {
 	u := ft.e.u
 	u.declFun("strcat", "(declare-fun strcat (Str Str) Str)")
 	u.axiom("(forall ((a Str) (b Str)) (! (= (strlen (strcat a b)) (+ (strlen a) (strlen b))) :pattern ((strcat a b))))")
+	emp := u.strLit("")
+	u.axiom(fmt.Sprintf("(forall ((a Str)) (! (and (= (strcat a %s) a) (= (strcat %s a) a)) :pattern ((strcat a %s)) :pattern ((strcat %s a))))", emp.S, emp.S, emp.S, emp.S))
 	if e, ok := u.lits[""]; ok {
 		if x.S == e {
 			return y
@@ -1135,7 +1137,11 @@ func (fr *frame) slice(t *ssa.Slice, st *State, reach string) {
 		}
 		u.elemHeap(at.Elem())
 		r := sx("mk-slice", ref, lo, sx("-", hi, lo), sx("-", mx, lo))
-		fr.vals[t] = Val{T: Term{ft.define(t.Name(), SSlice, r), SSlice}}
+		name := ft.define(t.Name(), SSlice, r)
+		if t.Low == nil && t.High == nil && t.Max == nil {
+			ft.staticLen[name] = int(at.Len())
+		}
+		fr.vals[t] = Val{T: Term{name, SSlice}}
 	default:
 		ft.note("unsupported slice of %s", t.X.Type())
 		fr.vals[t] = Val{T: Term{ft.fresh("slice", SSlice), SSlice}}
